@@ -313,6 +313,9 @@ func (p *pool) declare(pkg string) *ty {
 		for isByteOrRune(arg) {
 			arg = basicTy("int16") // uint8/int32 arguments are spelled byte/rune by go/types: C07 listed finding, not generated here
 		}
+		if zeroSize(arg) {
+			arg = basicTy("uint16") // Get() would return a zero-size value: listed finding C15:call:zero-size-result, dedicated unit only
+		}
 		inst := &ty{pkg: pkg, name: g.name, targs: []*ty{arg}, kind: "struct", id: g.id, feats: map[string]bool{"generic_instance": true}}
 		inst.fields = []field{{name: "V", t: arg}, {name: "w", t: basicTy("int8")}, {name: "P", t: &ty{kind: "ptr", elem: arg, comp: true}}}
 		inst.comp = arg.comp
@@ -486,4 +489,15 @@ func (p *pool) constructors(t *ty) {
 	}
 	b.WriteString("\n")
 	t.nvals = n
+}
+
+// zeroSizeResultType declares the dedicated type for the listed finding C15:call:zero-size-result.
+func (p *pool) zeroSizeResultType() *ty {
+	t := p.newNamed("main", "Z", "struct")
+	t.comp = true
+	b := p.decls["main"]
+	fmt.Fprintf(b, "type %s struct{}\n\nfunc (%s) Arr() [0]int { return [0]int{} }\nfunc (%s) Empty() struct{} { return struct{}{} }\nfunc (%s) Two() (int, [0]int) { return 1, [0]int{} }\nfunc (%s) Zeta() string { return \"%s.Zeta\" }\n\n", t.name, t.name, t.name, t.name, t.name, t.name)
+	t.feats["zero_size_result_method"] = true
+	t.feats["value_receiver_method"] = true
+	return t
 }
